@@ -390,6 +390,24 @@ func c09CheckFormat(c *Ctx, src []byte, path, origin string, strictComments bool
 				key = "C09:comment-lost:pipeline-retain-entry"
 			}
 		}
+		if key == "C09:comment-lost" {
+			// every lost comment stands directly before a closing `]` / `}` (no element of the literal follows it)
+			inEmpty := map[string]bool{}
+			for _, m := range c09EmptyCollectionRe.FindAllSubmatch(src, -1) {
+				for _, l := range strings.Split(string(m[1]), "\n") {
+					if t := strings.TrimSpace(l); t != "" {
+						inEmpty[t] = true
+					}
+				}
+			}
+			all := len(inEmpty) > 0
+			for _, x := range lost {
+				all = all && inEmpty[strings.TrimSpace(x)]
+			}
+			if all {
+				key = "C09:comment-lost:before-closing-bracket"
+			}
+		}
 		add(key, fmt.Sprintf("comment text lost by the formatter: %q", lost), map[string]interface{}{"formatted": out1})
 	} else if strictComments && len(c1) != len(c0) {
 		add("C09:comment-duplicated", fmt.Sprintf("%d comments in, %d comments out", len(c0), len(c1)), map[string]interface{}{"formatted": out1})
@@ -551,6 +569,8 @@ func c09BindListHasComments(a *syntax.Ast) bool {
 	}
 	return false
 }
+
+var c09EmptyCollectionRe = regexp.MustCompile(`((?:#[^\n]*\n\s*)+)[\]}]`)
 
 var c09EmptyUsingRe = regexp.MustCompile(`using\s*\(\s*(#[^\n]*\n\s*)+\)`)
 
